@@ -1,11 +1,11 @@
 \* The repaired design (escape-aware split, \' honoured, char16 unescaped):
-\* every string of <= 5 symbols over the 10-class alphabet in 36 folding contexts (thorough tier).
+\* every string of <= 5 symbols over the 10-class alphabet in 24 folding contexts (thorough tier).
 SPECIFICATION Spec
 CONSTANTS
   MaxLen = 5
   Maxlines = {12, 20}
   Indents = {3}
-  LinePos = {0, 8, 14}
+  LinePos = {0, 14}
   EndSpaces = {0, 1, 3}
   Avoids = {FALSE, TRUE}
   Safe = TRUE
